@@ -74,6 +74,22 @@ def subscript_key(node) -> Optional[object]:
     return None
 
 
+def norm_args(call):
+    """Positional arguments of a call with the leading keyword arguments of a uniquely named package callee moved into
+    place (same normal form as canon's): `f(a, log_support=b)` -> [a, b]."""
+    from .canon import SIGNATURES
+
+    f = call.func
+    callee = f.id if isinstance(f, ast.Name) else (f.attr if isinstance(f, ast.Attribute) else None)
+    sig = SIGNATURES.get(callee)
+    args = list(call.args)
+    if sig and all(k.arg for k in call.keywords):
+        kws = {k.arg: k.value for k in call.keywords}
+        while len(args) < len(sig) and sig[len(args)] in kws:
+            args.append(kws.pop(sig[len(args)]))
+    return args
+
+
 def stored_value(st):
     """The expression a store statement assigns: `t = e` -> e ; `t op= e` -> the BinOp `t op e` (which is what the
     normal form turned `t = t op e` into), so that a rule reads both spellings the same way."""
